@@ -50,11 +50,17 @@ def run(tier):
         bs = max(len(r) for r in tabs.values())   # smaller than the join output, not than a table chunk (C03 finding)
         for c in [{"partitions": 4, "batch_size": bs, "hash_joins": True, "threads": 4},
                   {"partitions": 4, "batch_size": bs, "hash_joins": False, "threads": 4},
-                  {"partitions": 1, "hash_joins": True}]:
+                  {"partitions": 1, "hash_joins": True},
+                  # small table chunks + small batches: several probe/build batches from small tables
+                  {"partitions": 1, "batch_size": 4, "hash_joins": True, "threads": 2, "_chunk": 4},
+                  {"partitions": 2, "batch_size": 4, "hash_joins": True, "threads": 4, "_chunk": 4},
+                  {"partitions": 2, "batch_size": 4, "hash_joins": False, "threads": 4, "_chunk": 4}]:
+            chunk = c.pop("_chunk", None)
             for qq in queries:
                 if qq["tag"][1] in ("true", "ne", "none") or qq["tag"][0] == "three":
                     continue   # quadratic outputs: judged on the small inputs only
-                run_.add("/".join(qq["tag"]) + "@" + name, qq["q"], db, c)
+                run_.add("/".join(qq["tag"]) + "@" + name, qq["q"], db, c,
+                         extra={"knobs": {"table_chunk_capacity": chunk}} if chunk else None)
     run_.execute()
     mism = run_.judge()
 
